@@ -4,7 +4,7 @@
    exclude_none; false: dump_json with nulls). *)
 From Coq Require Import ZArith List Bool String.
 From Common Require Import Str Res.
-From Rpc Require Import Json Models Events Proofs_Models Proofs_Events.
+From Rpc Require Import Json Models Events Values Proofs_Models Proofs_Events Proofs_Values.
 Import ListNotations.
 Open Scope Z_scope.
 
@@ -94,6 +94,62 @@ Theorem C08_event_roundtrip_refuted_before_fix :
   exists e, event_wf e = true /\ forall lax, decode_event lax (encode_event false e) <> Ok e.
 Proof. exact event_roundtrip_refuted. Qed.
 Print Assumptions C08_event_roundtrip_refuted_before_fix.
+
+(* value semantics: == is structural (frozenset fields as sets), reflexive and symmetric,
+   never holds across classes, and equal values have equal hashes *)
+Theorem C08_eq_refl : forall m, model_eqb m m = true.
+Proof. exact eq_refl_lemma. Qed.
+Print Assumptions C08_eq_refl.
+
+Theorem C08_eq_sym : forall a b, model_eqb a b = model_eqb b a.
+Proof. exact eq_sym_lemma. Qed.
+Print Assumptions C08_eq_sym.
+
+Theorem C08_eq_same_class : forall a b, model_eqb a b = true -> class_name a = class_name b.
+Proof. exact eq_same_class. Qed.
+Print Assumptions C08_eq_same_class.
+
+Theorem C08_eq_hash : forall a b,
+  model_eqb a b = true -> model_wf a = true -> model_wf b = true -> model_hash a = model_hash b.
+Proof. exact eq_hash_lemma. Qed.
+Print Assumptions C08_eq_hash.
+
+Theorem C08_wire_preserves_eq_hash : forall lax ex m,
+  model_wf m = true ->
+  exists m', of_json lax (to_json ex m) = Ok m' /\ model_eqb m' m = true /\ model_hash m' = model_hash m.
+Proof. exact wire_eq_lemma. Qed.
+Print Assumptions C08_wire_preserves_eq_hash.
+
+(* replace(): identity, soundness, class preservation, set-then-get, unknown fields rejected;
+   the identity law is refuted (open finding) for values decoded from tagged JSON *)
+Theorem C08_replace_identity : forall lax m, model_wf m = true -> replace lax false m [] = Ok m.
+Proof. exact replace_identity_lemma. Qed.
+Print Assumptions C08_replace_identity.
+
+Theorem C08_replace_sound : forall lax d m upd m', replace lax d m upd = Ok m' -> model_wf m' = true.
+Proof. exact replace_sound_lemma. Qed.
+Print Assumptions C08_replace_sound.
+
+Theorem C08_replace_class : forall lax d m upd m', replace lax d m upd = Ok m' -> class_name m' = class_name m.
+Proof. exact replace_class_lemma. Qed.
+Print Assumptions C08_replace_class.
+
+Theorem C08_replace_artist_name : forall lax a s,
+  artist_wf a = true ->
+  replace lax false (MArtist a) [(k_name, JStr s)] = Ok (MArtist (mkArtist (ar_uri a) (Some s) (ar_sortname a) (ar_mbid a))).
+Proof. exact replace_artist_name. Qed.
+Print Assumptions C08_replace_artist_name.
+
+Theorem C08_replace_unknown_field_rejected : forall lax a k v,
+  mem_str k [k_model; k_uri; k_name; k_sortname; k_mbid] = false ->
+  replace lax false (MArtist a) [(k, v)] = Raise EValidationError.
+Proof. exact replace_unknown_artist. Qed.
+Print Assumptions C08_replace_unknown_field_rejected.
+
+Theorem C08_replace_identity_refuted_when_decoded :
+  exists m, model_wf m = true /\ forall lax, replace lax true m [] <> Ok m.
+Proof. exact replace_identity_refuted_when_decoded. Qed.
+Print Assumptions C08_replace_identity_refuted_when_decoded.
 
 (* non-vacuity *)
 Theorem C08_nonvacuous_wf :
